@@ -508,4 +508,15 @@ Proof.
   - apply transcript_ok_true.
 Qed.
 
+
+(* with FdlOracleSoundAll.c11_open: no rule of C11 at all is reported on a transcript of the model *)
+Corollary c11_oracle_sound (apps : list A) (ins : list minput) :
+  ins_ok 0 ins ->
+  forall k r, In (k, r) (monitor p (length apps) (model_transcript A ops p apps ins)) -> rule_prop r <> PC11.
+Proof.
+  intros Hok k r Hin Hp. pose proof (c11_open A ops p Happs Hbv Hdata apps ins Hok k r Hin Hp) as ->.
+  exact (supervision_liveness_sound apps ins Hok k _ Hin eq_refl).
+Qed.
+
 End Sound.
+
